@@ -250,6 +250,19 @@ class Session(object):
         pa.add_constant(name, np.array(data, dtype=float))
         self.log(op='add_constant', a=a, name=name, data=data)
 
+    def op_ensure_properties(self, a):
+        b = self.rng.choice([x for x in self.arrs if x != a])
+        pa, pb = self.arrs[a], self.arrs[b]
+        names = list(pb.properties.keys())
+        allp = self.rng.random() < 0.5
+        props = names if allp else self.rng.sample(
+            names, self.rng.randint(1, len(names)))
+        if any(p in pa.constants for p in props):
+            return
+        pa.ensure_properties(pb, None if allp else list(props))
+        self.log(op='ensure_properties', a=a, b=b, props=list(props),
+                 all=allp)
+
     def op_set_constant(self, a):
         """In-place write to an existing constant, by one of the public
         routes; arrays made from this one (clones, extracts, pickles) or the
@@ -349,7 +362,8 @@ class Session(object):
            'extract_into', 'empty_clone', 'add_property', 'add_property',
            'remove_property', 'remove_property', 'add_constant',
            'resize_fill', 'set_tag', 'align', 'pickle', 'copy_properties',
-           'set_outputs', 'set', 'set_constant', 'set_constant']
+           'set_outputs', 'set', 'set_constant', 'set_constant',
+           'ensure_properties']
 
     def run(self, tid, length):
         self.arrs = {'A': self.make('A'), 'B': self.make('B'),
